@@ -457,6 +457,41 @@ func (x *Exec) step(st *State, in ssa.Instruction, fr *frame) {
 		st.regs[i] = x.val(st, i.X)
 	case *ssa.TypeAssert:
 		st.regs[i] = x.typeAssert(st, i)
+	case *ssa.Range:
+		// iteration over a string (by runes) or a map: the iterator is abstracted - Next yields
+		// unconstrained elements (a sound over-approximation: nothing is assumed about the order,
+		// the decoding of runes or the number of iterations)
+		st.regs[i] = VRangeIter{X: x.val(st, i.X), T: i.X.Type()}
+	case *ssa.Next:
+		it, ok := x.val(st, i.Iter).(VRangeIter)
+		if !ok {
+			vfail("next on an unknown iterator")
+		}
+		okT := FreshVar("next.ok", BoolSort)
+		tup := i.Type().(*types.Tuple)
+		var kv, vv Value = VOpaque{nil, "next.key"}, VOpaque{nil, "next.val"}
+		if i.IsString {
+			k := FreshVar("next.k", IdxSort)
+			r := FreshVar("next.rune", BV(32))
+			if sl, isSl := it.X.(VSlice); isSl {
+				st.assume(Implies(okT, And(BVCmp("bvsle", BVInt(0, 64), k), BVCmp("bvslt", k, sl.Len))))
+			}
+			st.assume(And(BVCmp("bvsle", BVInt(0, 32), r), BVCmp("bvsle", r, BVInt(0x10ffff, 32))))
+			kv, vv = VScalar{k, tyInt}, VScalar{r, intTy(32, true)}
+		} else {
+			for j, dst := range []*Value{&kv, &vv} {
+				ty := tyFromGo(tup.At(j + 1).Type())
+				if ty != nil {
+					fv, facts := x.freshValue(ty, "next.elem", st)
+					for _, f := range facts {
+						st.assume(f)
+					}
+					*dst = fv
+				}
+			}
+		}
+		x.W.Assumes["range over a string / map (only in changed code): the iterator is abstracted, each step yields unconstrained elements"] = true
+		st.regs[i] = VTuple{[]Value{VScalar{okT, tyBool}, kv, vv}}
 	case *ssa.RunDefers, *ssa.DebugRef:
 	case *ssa.Defer, *ssa.Go, *ssa.Select, *ssa.Send, *ssa.MakeChan:
 		vfail("outside subset: %T", in)
